@@ -22,6 +22,116 @@ Record gbranch := {
 Definition is_file_mode (m : gmode) : bool :=
   match m with GRegular | GExec | GSymlink => true | _ => false end.
 
+(** ---------- the tree walk of CollectFiles: go-git's object.TreeWalker (plumbing/object/tree.go), recursive mode, with
+    the [seen] map the caller hands over.  A tree object = the forest of its entries (name, mode, hash, and for a directory
+    the forest of the tree object [GetTree(entry.Hash)] returns).  Hashes are plain annotations: nothing forces them to
+    differ, so "the same tree object at several paths" (equal hashes, equal forests) is one of the quantified cases.
+
+    TreeWalker.Next's loop is run one iteration per unit of fuel ([tw_step]); the walker state is go-git's: the stack of
+    entry iterators (remaining entries of each open tree), [base] (a string, restored with path.Split + TrimSuffix when
+    a tree is finished) and [seen].  CollectFiles passes make(map[plumbing.Hash]bool) and neither it nor the walker ever
+    writes to it: [tw_seen] is constant along a run and [] in [tree_entries]; [tw_step] reads it exactly where Next does
+    (`if w.seen[entry.Hash] { continue }` — for EVERY entry, blob or tree, before the entry is returned). *)
+Inductive gnode := GNode (m : gmode) (h : N) (ch : gforest)
+with gforest := GNil | GCons (name : bytes) (n : gnode) (r : gforest).
+
+Definition max_tree_depth : nat := 1024.
+
+(** pathutil.ValidTreePath on an entry name: no control character; at least one field when split at '\' and '/';
+    no field ".", "..", ".git"/"git~1" (ASCII case folding; the HFS/NTFS-ignorable variants are not modelled). *)
+Definition is_ctrl (b : N) : bool := (b <? 32)%N || (b =? 127)%N.
+Definition is_sep (b : N) : bool := (b =? 92)%N || (b =? 47)%N.
+Fixpoint name_fields (cur : bytes) (l : bytes) : list bytes :=     (* strings.FieldsFunc(name, is_sep); cur reversed *)
+  match l with
+  | [] => match cur with [] => [] | _ => [rev cur] end
+  | b :: r => if is_sep b then match cur with [] => name_fields [] r | _ => rev cur :: name_fields [] r end
+              else name_fields (b :: cur) r
+  end.
+Definition ascii_lower (b : N) : N := if (65 <=? b)%N && (b <=? 90)%N then (b + 32)%N else b.
+Definition bad_field (p : bytes) : bool :=
+  bytes_eqb p [46]%N || bytes_eqb p [46;46]%N ||
+  bytes_eqb (map ascii_lower p) [46;103;105;116]%N || bytes_eqb (map ascii_lower p) [103;105;116;126;49]%N.
+Definition valid_name (n : bytes) : bool :=
+  negb (existsb is_ctrl n) &&
+  match name_fields [] n with [] => false | ps => negb (existsb bad_field ps) end.
+
+Definition simple_join (parent child : bytes) : bytes :=
+  match parent with [] => child | _ => parent ++ 47%N :: child end.
+(** w.base, _ = path.Split(w.base); w.base = strings.TrimSuffix(w.base, "/") *)
+Fixpoint from_first_slash (l : bytes) : bytes :=
+  match l with [] => [] | b :: r => if (b =? 47)%N then l else from_first_slash r end.
+Definition path_split_dir (p : bytes) : bytes := rev (from_first_slash (rev p)).
+Definition trim_slash_suffix (p : bytes) : bytes := match rev p with 47%N :: r => rev r | _ => p end.
+Definition parent_base (p : bytes) : bytes := trim_slash_suffix (path_split_dir p).
+
+Definition memN (x : N) (l : list N) : bool := existsb (N.eqb x) l.
+
+Record twalker := { tw_stack : list gforest; tw_base : bytes; tw_seen : list N }.
+
+Definition tw_init (root : gforest) (seen : list N) : twalker := {| tw_stack := [root]; tw_base := []; tw_seen := seen |}.
+
+Inductive tw_out :=
+| TwEOF                                   (* stack empty: io.EOF *)
+| TwErrDepth                              (* ErrMaxTreeDepth, state unchanged: every later Next reports it again *)
+| TwContinue                              (* `continue`: tree finished, or entry skipped because its hash is in seen *)
+| TwYield (e : gentry)                    (* Next returns (name, entry, nil) *)
+| TwInvalid (e : gentry).                 (* Next returns ("", entry, ErrInvalidPath): CollectFiles only tests for io.EOF
+                                             and hands ("", entry) to handleEntry; the tree is not descended into *)
+
+Definition tw_step (w : twalker) : tw_out * twalker :=
+  match tw_stack w with
+  | [] => (TwEOF, w)
+  | it :: rest =>
+      if max_tree_depth <? length rest then (TwErrDepth, w)         (* current = len(stack)-1 > maxTreeDepth *)
+      else match it with
+      | GNil => (TwContinue, {| tw_stack := rest; tw_base := parent_base (tw_base w); tw_seen := tw_seen w |})
+      | GCons name (GNode m h ch) it' =>
+          let stay := {| tw_stack := it' :: rest; tw_base := tw_base w; tw_seen := tw_seen w |} in
+          if memN h (tw_seen w) then (TwContinue, stay)
+          else if negb (valid_name name) then (TwInvalid {| ge_path := []; ge_mode := m; ge_id := h |}, stay)
+          else let full := simple_join (tw_base w) name in
+               let e := {| ge_path := full; ge_mode := m; ge_id := h |} in
+               match m with
+               | GDir => (TwYield e, {| tw_stack := ch :: it' :: rest; tw_base := full; tw_seen := tw_seen w |})
+               | _ => (TwYield e, stay)
+               end
+      end
+  end.
+
+(** the entries the `for { name, entry, err := tw.Next(); if err == io.EOF { break }; handleEntry(name, &entry) }` loop
+    hands to handleEntry.  Err 1: the walker is stuck on ErrMaxTreeDepth (CollectFiles does not test for it: it loops
+    forever handing zero entries to handleEntry); Err 2: out of fuel (never with [walk_fuel], see Proofs/GitTreeWalk.v). *)
+Fixpoint tw_run (fuel : nat) (w : twalker) : outcome (list gentry) :=
+  match fuel with
+  | 0 => Err 2
+  | S f =>
+      match tw_step w with
+      | (TwEOF, _) => Ok []
+      | (TwErrDepth, _) => Err 1
+      | (TwContinue, w') => tw_run f w'
+      | (TwYield e, w') => do r <- tw_run f w'; Ok (e :: r)
+      | (TwInvalid e, w') => do r <- tw_run f w'; Ok (e :: r)
+      end
+  end.
+
+Fixpoint node_size (n : gnode) : nat := match n with GNode _ _ ch => 2 + forest_size ch end
+with forest_size (f : gforest) : nat := match f with GNil => 0 | GCons _ n r => node_size n + forest_size r end.
+
+Definition walk_fuel (root : gforest) : nat := forest_size root + 2.
+
+(** what CollectFiles sees of a branch tree: the walk with the empty, never written [seen] map *)
+Definition tree_entries (root : gforest) : outcome (list gentry) := tw_run (walk_fuel root) (tw_init root []).
+
+(** reference: every path of the tree, a directory before its content, in tree order (= `git ls-tree -r -t`) *)
+Fixpoint node_paths (base name : bytes) (n : gnode) : list gentry :=
+  match n with
+  | GNode m h ch =>
+      let full := simple_join base name in
+      {| ge_path := full; ge_mode := m; ge_id := h |} :: match m with GDir => forest_paths full ch | _ => [] end
+  end
+with forest_paths (base : bytes) (f : gforest) : list gentry :=
+  match f with GNil => [] | GCons name n r => node_paths base name n ++ forest_paths base r end.
+
 Definition gkey := (bytes * N)%type.     (* fileKey{Path, ID} (SubRepoPath is "" without submodules) *)
 Definition gkey_eqb (a b : gkey) : bool := bytes_eqb (fst a) (fst b) && N.eqb (snd a) (snd b).
 
@@ -177,29 +287,45 @@ Fixpoint gms_eqb (a b : list gdoc) : bool :=
   | x :: a' => match remove_first_g x b with Some b' => gms_eqb a' b' | None => false end
   end.
 
-(** case: SizeMax, paths with a LargeFiles match, blobs (id, content), branches (name, entries (path, mode code,
-    blob id)), the (pattern, path) pairs the real glob engine matches (patterns: the harness' own reading of each
-    branch's ignore blob; the MODEL finds the ignore entry in the tree and derives the patterns itself), documents read
-    back after the go-git run, after the cat-file run. Mode codes: 0 regular, 1 executable, 2 symlink, 3 tree, 4 gitlink. *)
+(** case: SizeMax, paths with a LargeFiles match, blobs (id, content), branches (name, root tree as a forest with the
+    object ids of `git ls-tree -t`: the MODEL walks it with [tree_entries]), the (pattern, path) pairs the real glob engine
+    matches (patterns: the harness' own reading of each branch's ignore blob; the MODEL finds the ignore entry in the tree
+    and derives the patterns itself), documents read back after the go-git run, after the cat-file run. *)
 Definition c14gcase :=
-  (N * list bytes * list (N * bytes) * list (bytes * list (bytes * N * N)) * list (bytes * bytes)
+  (N * list bytes * list (N * bytes) * list (bytes * gforest) * list (bytes * bytes)
    * list (bytes * list bytes * bytes) * list (bytes * list bytes * bytes))%type.
 
-Definition mk_gentry (t : bytes * N * N) : gentry :=
-  let '(p, m, id) := t in
-  {| ge_path := p; ge_id := id;
-     ge_mode := match m with 0%N => GRegular | 1%N => GExec | 2%N => GSymlink | 3%N => GDir | 4%N => GSubmodule | _ => GOtherMode end |}.
 Definition mk_gdoc (t : bytes * list bytes * bytes) : gdoc :=
   let '(n, brs, c) := t in {| gd_name := n; gd_branches := brs; gd_content := c |}.
 
+Fixpoint branches_of_trees (glob : bytes -> bytes -> bool) (blobs : list (N * bytes)) (brs : list (bytes * gforest))
+  : outcome (list gbranch) :=
+  match brs with
+  | [] => Ok []
+  | (name, root) :: r =>
+      do es <- tree_entries root;
+      do rest <- branches_of_trees glob blobs r;
+      Ok (gbranch_of glob blobs name es :: rest)
+  end.
+
+(** a shard stores the branches of a document as a bit mask: a branch recorded twice in BlobLocation.Branches (only possible
+    when two entries of one tree are handed over with the same path, i.e. for names the walker rejects) reads back once *)
+Fixpoint dedup_names (l : list bytes) : list bytes :=
+  match l with [] => [] | x :: r => x :: filter (fun y => negb (bytes_eqb x y)) (dedup_names r) end.
+Definition as_stored (d : gdoc) : gdoc :=
+  {| gd_name := gd_name d; gd_branches := dedup_names (gd_branches d); gd_content := gd_content d |}.
+
 Definition c14g_ok (c : c14gcase) : bool :=
   let '(size_max, large, blobs, brs, tab, docs_a, docs_b) := c in
-  let bs := map (fun b => gbranch_of (table_glob tab) blobs (fst b) (map mk_gentry (snd b))) brs in
-  let large_ok := fun p => mem_name p large in
-  let sm := N.to_nat size_max in
-  gms_eqb (docs_gogit sm large_ok blobs bs) (map mk_gdoc docs_a) &&
-  match docs_catfile sm large_ok blobs (fun _ => 7) bs with
-  | Ok d => gms_eqb d (map mk_gdoc docs_b)
-  | _ => false
+  match branches_of_trees (table_glob tab) blobs brs with
+  | Ok bs =>
+      let large_ok := fun p => mem_name p large in
+      let sm := N.to_nat size_max in
+      gms_eqb (map as_stored (docs_gogit sm large_ok blobs bs)) (map mk_gdoc docs_a) &&
+      match docs_catfile sm large_ok blobs (fun _ => 7) bs with
+      | Ok d => gms_eqb (map as_stored d) (map mk_gdoc docs_b)
+      | _ => false
+      end
+  | _ => false          (* the walk does not end (ErrMaxTreeDepth): IndexGitRepo would not have returned *)
   end.
 Definition c14g_mismatches (cs : list c14gcase) : list N := bad_indexes c14g_ok cs.
